@@ -32,24 +32,56 @@ Ltac pcn := repeat match goal with
       replace (p + Zpos a + Zpos b) with (p + c) by ring
   end.
 
+(* closed arithmetic side conditions of the examples (never applied to a goal about runs/Halts:
+   vm_compute on those normalises the whole machine) *)
+Ltac zc := match goal with
+  | |- _ /\ _ => split; zc
+  | |- _ <= _ => vm_compute; intro; discriminate
+  | |- _ < _ => vm_compute; reflexivity
+  | |- _ = true => vm_compute; reflexivity
+  | |- _ <> _ => vm_compute; intro; discriminate
+  | |- _ \/ _ => vm_compute; first [left; intro; discriminate | right; intro; discriminate]
+  end.
+
 Section Idioms.
 Variable w : Z.
 Hypothesis Hw : 2 <= w.
-Variable code : Z -> option instr.
-Variable cmem : mem.
 
 Notation W := (Machine.W w).
 Notation wrap := (Machine.wrap w).
 Notation sgn := (Machine.sgn w).
 Notation lw := (Machine.lw w).
 Notation sw := (Machine.sw w).
+
+Let Hw1 : 1 <= w. Proof. lia. Qed.
+
+(* pure word arithmetic used by A5 (stated before `code` enters the context: in Coq 8.16 `lia`
+   makes every section variable in scope a dependency of the lemma) *)
+Lemma entry_guard_cond_monotone N g g' : 0 <= g <= g' -> g' < W ->
+  cond_holds w Cgeu (wrap g) (wrap N) = true -> cond_holds w Cgeu (wrap g') (wrap N) = true.
+Proof.
+  intros G G' H. cbn [cond_holds] in H |- *. apply Z.leb_le in H. apply Z.leb_le.
+  rewrite (wrap_small w g) in H by (unfold inrange; lia).
+  rewrite (wrap_small w g') by (unfold inrange; lia). lia.
+Qed.
+(* space guard: reserve N' (0 <= N' <= g, guaranteed by the entry guard), size s *)
+Lemma vla_space_cond_monotone N' s g g' : 0 <= N' <= g -> g <= g' -> g' < W ->
+  cond_holds w Cgeu (wrap (wrap g - wrap N')) s = true ->
+  cond_holds w Cgeu (wrap (wrap g' - wrap N')) s = true.
+Proof.
+  intros G G1 G' H. cbn [cond_holds] in H |- *. apply Z.leb_le in H. apply Z.leb_le.
+  rewrite (wrap_small w g), (wrap_small w N'), (wrap_small w (g - N')) in H by (unfold inrange; lia).
+  rewrite (wrap_small w g'), (wrap_small w N'), (wrap_small w (g' - N')) by (unfold inrange; lia).
+  lia.
+Qed.
+
+Variable code : Z -> option instr.
+Variable cmem : mem.
 Notation act := (Machine.act w code cmem).
 Notation Halts := (HidV.Sphinx.Halts.Halts act).
 Notation runs := (HidV.Sphinx.Halts.runs act).
 Notation cstep := (HidV.Sphinx.Halts.cstep act).
 Notation csteps := (HidV.Sphinx.Halts.csteps act).
-
-Let Hw1 : 1 <= w. Proof. lia. Qed.
 
 (* ---------- operand values depend on the memory only ---------- *)
 Definition oval (m : mem) (o : operand) : option Z := val w cmem (mk 0 m) o.
@@ -376,23 +408,6 @@ Qed.
 (* No-wrap side conditions: the true gaps g = fp - ap, g' = fp' - ap' satisfy 0 <= g <= g' < W.
    They follow from ap <= fp <= stack_end < W, and __post_init__ rejects stacks with
    (stack+5)*w > max_signed < W/2 (GenLayout.stack_size_rejected). *)
-Lemma entry_guard_cond_monotone N g g' : 0 <= g <= g' -> g' < W ->
-  cond_holds w Cgeu (wrap g) (wrap N) = true -> cond_holds w Cgeu (wrap g') (wrap N) = true.
-Proof.
-  intros G G' H. cbn [cond_holds] in *. apply Z.leb_le in H. apply Z.leb_le.
-  rewrite (wrap_small w g) in H by (unfold inrange; lia).
-  rewrite (wrap_small w g') by (unfold inrange; lia). lia.
-Qed.
-(* space guard: reserve N' (0 <= N' <= g, guaranteed by the entry guard), size s *)
-Lemma vla_space_cond_monotone N' s g g' : 0 <= N' <= g -> g <= g' -> g' < W ->
-  cond_holds w Cgeu (wrap (wrap g - wrap N')) s = true ->
-  cond_holds w Cgeu (wrap (wrap g' - wrap N')) s = true.
-Proof.
-  intros G G1 G' H. cbn [cond_holds] in *. apply Z.leb_le in H. apply Z.leb_le.
-  rewrite (wrap_small w g), (wrap_small w N'), (wrap_small w (g - N')) in H by (unfold inrange; lia).
-  rewrite (wrap_small w g'), (wrap_small w N'), (wrap_small w (g' - N')) by (unfold inrange; lia).
-  lia.
-Qed.
 (* lifted to the idioms: same code, two memories (e.g. the same program point reached with a
    bigger stack): if the entry guard passes in m it passes in m' *)
 Theorem stack_monotone_entry p m m' no so r1 fp ap N e e' :
@@ -629,4 +644,47 @@ Proof. intro c. apply (bool_normalise 2 ltac:(lia) c cm 0 m16 (Imm 3) 4); try re
 Example not_by_sub_ex : let c := code_of [IArith Asub (St 4) (Imm 1) (St 4)] in
   lw 2 (sw 2 m16 4 (1 - 0)) 4 = 1.
 Proof. intro c. apply (not_by_sub 2 ltac:(lia) c cm 0 m16 4 (St 4) 0); try reflexivity; lia. Qed.
+Example neg_by_sub_ex : let c := code_of [IArith Asub (St 4) (Imm 0) (Imm 5)] in
+  sgn 2 (lw 2 (sw 2 m16 4 (0 - 5)) 4) = - sgn 2 5.
+Proof.
+  intro c. refine (proj2 (proj2 (neg_by_sub 2 ltac:(lia) c cm 0 m16 4 (Imm 5) 5 _ _ _ _ _)) _); try reflexivity; try lia; zc.
+Qed.
+(* branch: taken side, [4] = 0 < [6] = 1 *)
+Example branch_idiom_ex_taken : let c := code_of [IJ (Imm 4); IHc Clt (St 4) (St 6); IHalt; IHalt; IHc Cge (St 4) (St 6)] in
+  let m := sw 2 m16 6 1 in runs (act 2 c cm) (mk 0 m) [] (mk 5 m).
+Proof.
+  intros c m. apply (branch_idiom_table 2 c cm 0 m (Imm 4) 4 Clt Cge (St 4) (St 6) 0 1); try reflexivity; try (cbn; tauto).
+Qed.
+(* VLA space guard: fp = [2] = 100, ap = [0] = 10, reserve 20, size [4]: 70 passes, 71 fails *)
+Definition m_vla (s : Z) : mem := sw 2 (sw 2 (sw 2 (zmem 16) 2 100) 0 10) 4 s.
+Definition c_vla := code_of [IJ (Imm 6); IArith Asub (St 6) (St 2) (St 0); IArith Asub (St 6) (St 6) (Imm 20);
+  IHc Cgeu (St 6) (St 4); IJ (Imm 7); IHalt; IFlag 0; IJ (Imm 7); IHalt].
+Example vla_space_guard_ex_pass : runs (act 2 c_vla cm) (mk 0 (m_vla 70)) [] (mk 6 (m_vla 70)).
+Proof.
+  refine (proj1 (vla_space_guard_idiom 2 ltac:(lia) c_vla cm 0 (m_vla 70) (Imm 6) (Imm 7) 7 6 2 0 20 (St 4) 70 _ _ _ _ _ _ _ _ _ _ _ _ _) _);
+    try reflexivity; try lia; zc.
+Qed.
+Example vla_space_guard_ex_fail : ~ Halts (act 2 c_vla cm) (mk 0 (m_vla 71)).
+Proof.
+  refine (proj2 (proj1 (proj2 (vla_space_guard_idiom 2 ltac:(lia) c_vla cm 0 (m_vla 71) (Imm 6) (Imm 7) 7 6 2 0 20 (St 4) 71 _ _ _ _ _ _ _ _ _ _ _ _ _)) _ _));
+    try reflexivity; try lia; try zc.
+  apply stub_absorbing; [reflexivity | lia].
+Qed.
+(* stack_monotone: the entry guard with N = 50 passes at gap 90 (fp=100, ap=10) and at gap 190 *)
+Definition m_gap (fp : Z) : mem := sw 2 (sw 2 (zmem 16) 2 fp) 0 10.
+Definition c_entry := code_of [IJ (Imm 5); IArith Asub (St 6) (St 2) (St 0); IHc Cgeu (St 6) (Imm 50); IJ (Imm 6); IHalt; IFlag 0; IJ (Imm 6); IHalt].
+Example stack_monotone_entry_ex :
+  runs (act 2 c_entry cm) (mk 0 (m_gap 100)) [] (mk 5 (m_gap 100)) /\
+  runs (act 2 c_entry cm) (mk 0 (m_gap 200)) [] (mk 5 (m_gap 200)).
+Proof.
+  apply (stack_monotone_entry 2 ltac:(lia) c_entry cm 0 (m_gap 100) (m_gap 200) (Imm 5) (Imm 6) 6 2 0 50 6 6);
+    try reflexivity; try lia; zc.
+Qed.
+Example stack_monotone_vla_ex :
+  runs (act 2 c_vla cm) (mk 0 (m_vla 70)) [] (mk 6 (m_vla 70)) /\
+  runs (act 2 c_vla cm) (mk 0 (sw 2 (m_vla 70) 2 300)) [] (mk 6 (sw 2 (m_vla 70) 2 300)).
+Proof.
+  apply (stack_monotone_vla 2 ltac:(lia) c_vla cm 0 (m_vla 70) (sw 2 (m_vla 70) 2 300) (Imm 6) (Imm 7) 6 2 0 20 (St 4) 70 7 7);
+    try reflexivity; try lia; zc.
+Qed.
 End Examples.
